@@ -1,8 +1,6 @@
 package c18
 
 import (
-	"fmt"
-
 	"verif/harness/core"
 )
 
@@ -35,7 +33,7 @@ func validateTraces(ctx *core.Ctx, cf config, scheds []schedule, outs []outcome)
 		idx = append(idx, i)
 	}
 	bad, err := core.JudgeCases(ctx, core.TLCOpts{Dir: "conc", Module: "Trace_Extractor",
-		Cfg: fmt.Sprintf("Trace_Extractor_%s%d.cfg", cf.Graph, len(cf.Procs)), Timeout: ctx.Dur(10, 30)}, recs, 400, 12)
+		Cfg: cf.Trace, Timeout: ctx.Dur(10, 30)}, recs, 400, 12)
 	if err != nil {
 		return err
 	}
